@@ -1,10 +1,10 @@
 import GoLevel.Proofs.LocksInv
 import GoLevel.Proofs.LocksW1
-/-! Progress of the repaired configuration: while a call is pending some fault-free step is enabled, unless
+/-! Progress (any configuration, given the invariants `Good`): while a call is pending some fault-free step is enabled, unless
 the only thing everybody waits for is the user's open transaction. -/
 namespace GoLevel.Locks
 
-/-- all invariants of the repaired configuration -/
+/-- all invariants (they hold with the three fixes, and the fourth or no `SetReadOnly`) -/
 structure Good (s : St) : Prop where
   r : RInv s
   a : PInvA s
@@ -13,7 +13,7 @@ structure Good (s : St) : Prop where
   d : PInvD s
   w : W1 s
 
-abbrev R := Cfg.repaired
+variable {R : Cfg}
 
 /-- a thread at a program counter that never blocks has a fault-free step -/
 macro "nb_step" hi:ident : tactic => `(tactic| first
